@@ -79,7 +79,7 @@ theorem stmt_sound (v : Nat) (hv : v < n) : (s : Stmt) → ∀ (r : Lv n) (σ : 
       | var i =>
         simp only
         rw [get_lowerWeakToNone _ _ _ hv]
-        have h2 : (if op ≠ AOp.eq ∧ op ≠ AOp.eqQuestion then doExpr r1 ⟨false, false, [i]⟩ else r1).get v = Lness.strong := by
+        have h2 : (if op ≠ AOp.eq ∧ op ≠ AOp.eqQuestion then doExpr r1 ⟨false, false, [i], 0⟩ else r1).get v = Lness.strong := by
           by_cases hop : op ≠ AOp.eq ∧ op ≠ AOp.eqQuestion
           · simp only [hop, and_self, ↓reduceIte, ne_eq, not_false_eq_true]
             exact doExpr_strong r1 _ v hv h1
